@@ -13,10 +13,11 @@ CONSTANTS
   Weights <- DistOnly
   Surs = {0}
   CUs <- BaseCU
+  Rts <- NoRt
   NoDst = TRUE
   OkSubsets = FALSE
   NeedConsistent = FALSE
 INIT Init
 NEXT Next
-INVARIANTS TreeEdgeOK TreeRooted TreeMono TreeAllowed AtDone IterBound SizeBound
+INVARIANTS TreeEdgeOK TreeRooted TreeMono TreeAllowed AtDone IterBound SizeBound RtBound
 CHECK_DEADLOCK FALSE
